@@ -445,7 +445,7 @@ pub fn run(ctx: &Ctx) {
         if nontrivial(c) {
             ctx.class("nontrivial");
             ctx.nontrivial(hash_of(&case_json(c).to_string()));
-            if hash_of(&case_json(c).to_string()) % 211 == 0 {
+            if (ctx.samples_len() < 2 || hash_of(&case_json(c).to_string()) % 211 == 0) {
                 ctx.sample(5, || case_json(c));
             }
         }
